@@ -36,6 +36,9 @@ partial def feOf : SX → Option FE
   | .node "ste" [o, k, e] => do pure (.setE (← feOf o) (← feOf k) (← feOf e))
   | .node "dl" [o, .node p []] => do pure (.del (← feOf o) p)
   | .node "dle" [o, k] => do pure (.delE (← feOf o) (← feOf k))
+  | .node "dlv" [.node x []] => some (.delV x)
+  | .node "dfx" [o, .node p [], e] => do pure (.defFix (← feOf o) p (← feOf e))
+  | .node "dro" [o, .node p [], e] => do pure (.defRO (← feOf o) p (← feOf e))
   | .node "c" [f, .node "A" as] => do pure (.call (← feOf f) (← fesOf as))
   | .node "mc" [o, .node p [], .node "A" as] => do pure (.mcall (← feOf o) p (← fesOf as))
   | .node "nw" [f, .node "A" as] => do pure (.new (← feOf f) (← fesOf as))
@@ -80,6 +83,7 @@ partial def fsOf : SX → Option FS
   | .node "B" ss => do pure (.block (← fssOf ss))
   | .node "WI" [o, .node "S" b] => do pure (.withS (← feOf o) (← fssOf b))
   | .node "FI" [.node isVar [], .node x [], o, .node "S" b] => do pure (.forIn (isVar = "1") x (← feOf o) (← fssOf b))
+  | .node "FII" [.node x [], ie, o, .node "S" b] => do pure (.forInI x (← feOf ie) (← feOf o) (← fssOf b))
   | .node "LB" [.node l [], s] => do pure (.label l (← fsOf s))
   | .node "BR" [.node l []] => some (.brk (optName l))
   | .node "CN" [.node l []] => some (.cont (optName l))
